@@ -30,14 +30,15 @@ prop("C17", "exploration",
      "virtual intervals) ~ 8 % of the cases each, equally in the -race unit. With a slow socket the writers of one endpoint take turns on a "
      "channel semaphore (a writer waiting for the handle's write MUTEX would freeze the bubble's clock). "
      "Half-open handshakes on the server (one case in four; labels half-open-handshake:*): 1-3 FURTHER CLIENTS (own address and certificate) start, 0 / 1 / 20 / 400 ms "
-     "into the case, a handshake that the network cuts short - discoverable mode: the client's ClientAuth or the server's ServerAuth is lost (simnet Filter); hidden mode: "
+     "into the case, a handshake that the network cuts short - discoverable mode: the client's ClientAuth or the server's ServerAuth is lost (simnet Filter), or the ClientAuth is LATE: delivered at the instant the server's "
+     "timer fires or 1 / 50 ms after it, so that the receive loop looks up a handshake the timer is removing / has removed; hidden mode: "
      "the client's datagram comes from source port 0, so the server registers the handshake and its answer fails inside the socket (EINVAL) - which leaves an entry in the "
      "server's handshake table and one in its session table; the server's HandshakeTimeout is 50 ms / 300 ms / 2 s (virtual) and the further client stays until it has passed "
      "(or leaves at once: the server is then also closed while the timer is pending), so the timer the server armed fires on its own goroutine and removes the entries WHILE "
      "the program runs on the established session; in half of these cases one more goroutine does WriteMsgPaced on the client (2-16 WriteMsg calls 1 / 20 / 150 ms apart: the "
      "server's receive loop looks sessions up before, at and after the expiry). The further clients never look at the server's state and the labels are computed from the "
      "network log after everything has stopped, so the harness does not order the timer against the receive loop: an unsynchronised access of either to the tables is a "
-     "report of the race detector (-race unit, ~20 % of its cases have a handshake that expires during the case) or the runtime's concurrent-map fatal error. Their Handshake "
+     "report of the race detector (-race unit, ~17 % of its cases have a handshake that expires during the case) or the runtime's concurrent-map fatal error. Their Handshake "
      "and Close calls are subject to the termination oracle like all others. One other case in six has the short server timeout without further clients. "
      "One case in ten is the drain scenario: k messages delivered into the receive queue, then Close, then reads until end-of-stream. A "
      "quarter of them read with ReadMsg into a large buffer (all k messages, then end-of-stream); the others draw 1-5 messages of "
